@@ -1,7 +1,7 @@
 (* C17 - No silent truncation: long lines and large files are processed completely.
    Statements only; proofs in Proofs/ScanProofs.v. *)
 From Coq Require Import String.
-From Verif Require Import Base.Str Base.Lines Proofs.ScanProofs Model.Renumber Model.Copyright Model.Format.
+From Verif Require Import Base.Str Base.Lines Base.Outcome Proofs.ScanProofs Model.Patterns Model.ParseLine Model.Parser Proofs.ScanUnlinesProofs Model.Renumber Model.Copyright Model.Format.
 From Verif Require Import Gen.Consts.
 From Verif Require Tie.Pin_scan_limit_parser_parse Tie.Pin_scan_limit_assembler_assemble
   Tie.Pin_scan_limit_format_process_file Tie.Pin_scan_limit_renumber_process_yaml
@@ -69,3 +69,12 @@ Theorem C17_default_limit_truncates :
 cd
 " = ([$"ab"], true).
 Proof. exact scan_truncates_example. Qed.
+Print Assumptions C17_default_limit_truncates.
+
+(* what one stage writes line by line, the next stage's scanner reads back completely and
+   unchanged: for every list of clean lines (no newline inside, no carriage return at the end,
+   each shorter than the limit) - the hand-over between parser, include builder and assembler *)
+Theorem C17_scanner_reads_back_written_lines : forall limit ls,
+  Forall (clean_line limit) ls -> scan_lines limit (unlines ls) = ls.
+Proof. exact scan_lines_unlines. Qed.
+Print Assumptions C17_scanner_reads_back_written_lines.
